@@ -12,8 +12,10 @@ import (
 	"os"
 	"strings"
 	"testing"
+	"time"
 
 	"github.com/influxdata/influxdb/v2/models"
+	"github.com/influxdata/influxdb/v2/pkg/verifhook"
 	"github.com/influxdata/influxdb/v2/toml"
 	"github.com/influxdata/influxdb/v2/tsdb"
 	"pgregory.net/rapid"
@@ -266,6 +268,57 @@ func (mc *machine) actions() map[string]func(*rapid.T) {
 			}
 			mc.inCache = map[string]bool{}
 			rec.Class("step:snapshot")
+		},
+		// a write (overwrites included) and a full scan while a cache snapshot is in progress: the
+		// values of the pending snapshot and the newer hot values are both in the cache
+		"writeInSnapshotWindow": func(t *rapid.T) {
+			if mc.tainted {
+				return
+			}
+			pts := gen.Batch(t, "sw", 12, &mc.seq)
+			mc.ops = append(mc.ops, op{Kind: "snapshotWindow:begin"})
+			before := make([]string, 0, len(mc.inCache))
+			for k := range mc.inCache {
+				before = append(before, k)
+			}
+			root := mc.f.Root
+			reachedCh, release, fired := make(chan struct{}, 1), make(chan struct{}), false
+			verifhook.Set(func(name, detail string) {
+				if name != "tsm1.snapshot.after-cache-snapshot" || !strings.HasPrefix(detail, root) || fired {
+					return
+				}
+				fired = true
+				reachedCh <- struct{}{}
+				<-release
+			})
+			done := make(chan error, 1)
+			go func() { done <- mc.f.Snapshot() }()
+			reached := false
+			select {
+			case <-reachedCh:
+				reached = true
+			case err := <-done:
+				done <- err
+			case <-time.After(30 * time.Second):
+				rec.Inconclusive("snapshot did not reach the hook point within 30s")
+			}
+			mc.write(pts, "write")
+			if reached {
+				mc.fullScan()
+			}
+			close(release)
+			if err := <-done; err != nil {
+				mc.fail("snapshot-error", fmt.Sprintf("WriteSnapshot around a concurrent write: %v", err))
+			}
+			verifhook.Set(nil)
+			mc.ops = append(mc.ops, op{Kind: "snapshotWindow:end"})
+			for _, k := range before {
+				mc.inTSM[k] = true
+			}
+			if reached {
+				rec.Class("step:write-and-scan-inside-snapshot-window")
+			}
+			mc.fullScan()
 		},
 		"compact": func(t *rapid.T) {
 			if mc.tainted {
